@@ -152,6 +152,123 @@ def otsuHistN (hist : List Nat) (edges : List Rat) : Rat :=
   let cs := centres edges
   cs.getD (argmaxN (critListN hist cs)) 0
 
+/-! ## the rescaling step: class means in units of a power of two near the data range
+
+```
+_, exponent = np.frexp(np.amax(np.abs(bin_edges[[0, -1]])))
+centers = np.ldexp(bin_centers, -exponent)
+```
+-/
+
+def absQ (q : Rat) : Rat := if q < 0 then -q else q
+
+/-- `2^k` for an integer `k` -/
+def pow2 (k : Int) : Rat :=
+  if 0 ≤ k then ((2 ^ k.toNat : Nat) : Rat) else 1 / ((2 ^ (-k).toNat : Nat) : Rat)
+
+/-- the exponent `np.frexp` returns: `e` with `2^(e-1) ≤ |q| < 2^e`, and 0 for 0.
+(`⌊log₂ num⌋ − ⌊log₂ den⌋` is `⌊log₂ |q|⌋` or one more: one comparison decides) -/
+def frexpExp (q : Rat) : Int :=
+  if q = 0 then 0 else
+  let e0 : Int := (Nat.log2 q.num.natAbs : Int) - (Nat.log2 q.den : Int)
+  if pow2 e0 ≤ absQ q then e0 + 1 else e0
+
+/-- `np.amax(np.abs(bin_edges[[0, -1]]))`: the larger of the two outer edges in magnitude -/
+def outerMag (edges : List Rat) : Rat :=
+  max (absQ (edges.getD 0 0)) (absQ (edges.getD (edges.length - 1) 0))
+
+/-- `exponent` -/
+def scaleExp (edges : List Rat) : Int := frexpExp (outerMag edges)
+
+/-- `centers = np.ldexp(bin_centers, -exponent)` -/
+def scaledCentres (edges : List Rat) : List Rat :=
+  (centres edges).map (pow2 (-(scaleExp edges)) * ·)
+
+/-- `otsu` from the histogram on, as the code is: the criterion is formed from the rescaled centres, the value
+returned is the (unscaled) centre at the position of its maximum -/
+def otsuHistS (hist : List Nat) (edges : List Rat) : Rat :=
+  (centres edges).getD (argmaxN (critListN hist (scaledCentres edges))) 0
+
+/-! ## the criterion in binary floating point, and its rounding budget
+
+`fl` is the rounding function of the arithmetic (`np.float64`: round to nearest even).  `critListR fl` is the program
+of `otsu` from `hist * centers` on with every arithmetic result rounded; `critListB u η` runs the same program on pairs
+(exact value, bound on the distance of the computed value from it) for any `fl` with `|fl x − x| ≤ u·|x| + η`. -/
+
+/-- `np.cumsum` in floating point from a running sum: `s_i = fl (s_{i-1} + a_i)` -/
+def cumsumFromR (fl : Rat → Rat) (acc : Rat) : List Rat → List Rat
+  | [] => []
+  | a :: l => fl (acc + a) :: cumsumFromR fl (fl (acc + a)) l
+
+/-- `np.cumsum` in floating point: the first entry is copied, every further partial sum is rounded -/
+def cumsumR (fl : Rat → Rat) : List Rat → List Rat
+  | [] => []
+  | a :: l => a :: cumsumFromR fl a l
+
+/-- `(bin_edges[1:] + bin_edges[:-1]) / 2.0` in floating point (halving is exact except for subnormal sums) -/
+def centresR (fl : Rat → Rat) (edges : List Rat) : List Rat :=
+  List.zipWith (fun a b => fl (fl (a + b) / 2)) edges.tail edges
+
+/-- `np.ldexp(bin_centers, -exponent)` (exact) -/
+def scaledCentresR (fl : Rat → Rat) (edges : List Rat) : List Rat :=
+  (centresR fl edges).map (pow2 (-(scaleExp edges)) * ·)
+
+/-- the criterion array as binary floating point computes it: every arithmetic result goes through the rounding
+function `fl`; the class weights are integers (exact) -/
+def critListR (fl : Rat → Rat) (hist : List Nat) (cs : List Rat) : List Rat :=
+  let h : List Rat := hist.map (fun (k : Nat) => (k : Rat))
+  let w1 := cumsum h
+  let w2 := (cumsum h.reverse).reverse
+  let hc := List.zipWith (fun a c => fl (a * c)) h cs
+  let u1 := List.zipWith (fun s w => fl (s / w)) (cumsumR fl hc) w1
+  let u2 := (List.zipWith (fun s w => fl (s / w)) (cumsumR fl hc.reverse) w2.reverse).reverse
+  let ww := List.zipWith (· * ·) w1 w2.tail
+  let du := List.zipWith (fun a b => fl (a - b)) u1 u2.tail
+  List.zipWith (fun a d => fl (fl a * fl (d * d))) ww du
+
+def otsuHistR (fl : Rat → Rat) (hist : List Nat) (edges : List Rat) : Rat :=
+  (centresR fl edges).getD (argmaxFirst (critListR fl hist (scaledCentresR fl edges))) 0
+
+/-- an exact value together with a bound on the distance of the computed value from it -/
+abbrev EB := Rat × Rat
+
+/-- the least multiple of `2^-1200` that is `≥ q`: keeps the numbers of the budget short (a bound may only grow) -/
+def upB (q : Rat) : Rat := ((q * ((2 ^ 1200 : Nat) : Rat)).ceil : Rat) / ((2 ^ 1200 : Nat) : Rat)
+
+/-- after rounding: `|fl x − x| ≤ u·|x| + η` -/
+def rndB (u η : Rat) (p : EB) : EB := (p.1, upB ((1 + u) * p.2 + u * absQ p.1 + η))
+def addB (p q : EB) : EB := (p.1 + q.1, p.2 + q.2)
+def subB (p q : EB) : EB := (p.1 - q.1, p.2 + q.2)
+def mulB (p q : EB) : EB := (p.1 * q.1, absQ p.1 * q.2 + absQ q.1 * p.2 + p.2 * q.2)
+/-- division by an exact number -/
+def divB (p : EB) (w : Rat) : EB := (p.1 / w, p.2 / absQ w)
+
+def cumsumFromB (u η : Rat) (acc : EB) : List EB → List EB
+  | [] => []
+  | a :: l => rndB u η (addB acc a) :: cumsumFromB u η (rndB u η (addB acc a)) l
+
+def cumsumB (u η : Rat) : List EB → List EB
+  | [] => []
+  | a :: l => a :: cumsumFromB u η a l
+
+def centresB (u η : Rat) (edges : List Rat) : List EB :=
+  List.zipWith (fun a b => rndB u η (divB (rndB u η (a + b, 0)) 2)) edges.tail edges
+
+def scaledCentresB (u η : Rat) (edges : List Rat) : List EB :=
+  (centresB u η edges).map (fun p => mulB (pow2 (-(scaleExp edges)), 0) p)
+
+/-- the criterion array with its rounding budget: the program of `critListR` on (exact value, error bound) pairs -/
+def critListB (u η : Rat) (hist : List Nat) (cs : List EB) : List EB :=
+  let h : List Rat := hist.map (fun (k : Nat) => (k : Rat))
+  let w1 := cumsum h
+  let w2 := (cumsum h.reverse).reverse
+  let hc := List.zipWith (fun a c => rndB u η (mulB (a, 0) c)) h cs
+  let u1 := List.zipWith (fun s w => rndB u η (divB s w)) (cumsumB u η hc) w1
+  let u2 := (List.zipWith (fun s w => rndB u η (divB s w)) (cumsumB u η hc.reverse) w2.reverse).reverse
+  let ww := List.zipWith (· * ·) w1 w2.tail
+  let du := List.zipWith (fun a b => rndB u η (subB a b)) u1 u2.tail
+  List.zipWith (fun a d => rndB u η (mulB (rndB u η (a, 0)) (rndB u η (mulB d d)))) ww du
+
 /-! ## runs of empty bins: cuts that separate the same two groups -/
 
 /-- the first cut of the run of cuts that `i` belongs to: cuts `i-1` and `i` separate the same two groups of
@@ -181,7 +298,7 @@ def histogramE (edges : List Rat) (xs : List Rat) : List Nat :=
   countBins (xs.map (binByEdges edges)) (edges.length - 1)
 
 /-- Otsu's threshold of data binned against the given edges -/
-def otsuEdges (edges : List Rat) (xs : List Rat) : Rat := otsuHistN (histogramE edges xs) edges
+def otsuEdges (edges : List Rat) (xs : List Rat) : Rat := otsuHistS (histogramE edges xs) edges
 
 /-- NumPy's bin index from its floating-point estimate `est = trunc(((x - first) / (last - first)) * n)`:
 `indices[indices == n] -= 1`; `indices[x < edges[indices]] -= 1`;
@@ -227,7 +344,7 @@ def histogramN (xs : List (Option Rat)) (n : Nat) : Option (List Nat × List Rat
 /-- `otsu(x, remove_nan)`; `none` = the call raises (`np.histogram` refuses a range that is not finite) -/
 def otsuArr (removeNan : Bool) (xs : List (Option Rat)) (n : Nat := 256) : Option Rat :=
   let x := if removeNan then maskSelect xs (xs.map (fun v => !v.isNone)) else xs
-  (histogramN x n).map (fun he => otsuHistN he.1 he.2)
+  (histogramN x n).map (fun he => otsuHistS he.1 he.2)
 
 /-! ## `np.histogram(x, bins=n)` in double precision -/
 
